@@ -119,6 +119,15 @@ impl Check for C01 {
                 } else { good };
                 let line: String = line.chars().take(200).collect();
                 lines.push(Line::Raw(line));
+                if r.chance(1, 20) {
+                    // clock times held in names: bound now, used by whatever text comes later (another day, another year)
+                    let nm = *r.pick(&["alpha", "budget", "netto", "salary"]);
+                    match r.below(4) {
+                        0 | 1 => lines.push(Line::Raw(format!("{} = {}:{:02}{}", nm, r.below(24), r.below(60), r.pick(&["", "", " EST", " CET"])))),
+                        2 => lines.push(Line::Raw(format!("{} to {}:{:02}", nm, r.below(24), r.below(60)))),
+                        _ => lines.push(Line::Raw(format!("{} {}", nm, r.pick(&["EST", "to CET", "+ 2 hours", "as unix"])))),
+                    }
+                }
                 if r.chance(1, 25) {
                     // a binding whose right-hand side parses but fails in the interpreter, then a use of the name
                     let nm = *r.pick(&["alpha", "budget", "netto", "salary"]);
